@@ -38,11 +38,18 @@ RUNS = [
     {"name": "B1rxn", "inputs": B1, "bs": None, "t": 0, "col": "rxn"},
     {"name": "B1/1@.9", "inputs": B1, "bs": 1, "t": 0.9, "col": "reaction"},
     {"name": "overlap/2", "inputs": B1[2:] + B2[:2], "bs": 2, "t": 0.5, "col": "reaction"},
+    {"name": "B1+cols", "inputs": B1, "bs": None, "t": 0, "col": "reaction",
+     "extra_cols": ["carbon_balance_check", "unbalance_col"]},
+    {"name": "B1-aam", "inputs": ["[CH3:1][C:2](=[O:3])[O:4][CH3:5]>>[CH3:1][C:2](=[O:3])[OH:4]"] + B1[:2], "bs": None,
+     "t": 0, "col": "reaction", "remove_aam": False},
+    {"name": "B1+aam", "inputs": ["[CH3:1][C:2](=[O:3])[O:4][CH3:5]>>[CH3:1][C:2](=[O:3])[OH:4]"] + B1[:2], "bs": None,
+     "t": 0, "col": "reaction"},
 ]
-QUICK_RUNS = [0, 1, 3, 4, 6, 9]
+QUICK_RUNS = [0, 1, 3, 4, 6, 9, 12, 13, 14]
 
 _bal = {}
 _ref = {}
+_cols = {}
 HITS = {"n": 0}
 
 
@@ -73,19 +80,24 @@ def do_run(run, cache_dir):
     b.cache = cache_dir is not None
     b.cache_dir = cache_dir
     b.confidence_threshold = run["t"]
+    base_cols = _cols.setdefault(run["col"], list(b.columns))
+    b.columns = base_cols + list(run.get("extra_cols", []))
+    b.remove_aam = run.get("remove_aam", True)
     data = [{run["col"]: rx} for rx in run["inputs"]]
     stats = {}
     buf = io.StringIO()
     try:
         with contextlib.redirect_stderr(buf), contextlib.redirect_stdout(buf):
             rows = b.rebalance(data, output_dict=True, stats=stats, batch_size=run["bs"])
-        cols = [c if c != "reaction" else run["col"] for c in COLS]
+        cols = [c if c != "reaction" else run["col"] for c in COLS] + list(run.get("extra_cols", []))
         return [{c: r.get(c) for c in cols} for r in rows], stats, None
     except Exception as e:  # noqa
         return None, stats, "%s: %s" % (type(e).__name__, str(e)[:160])
     finally:
         b.cache = False
         b.confidence_threshold = 0
+        b.columns = base_cols
+        b.remove_aam = True
 
 
 def reference(run):
